@@ -83,6 +83,8 @@ func checkC06(c *Check) {
 	rx := RegexByName(rxm)
 	c.Floor("package-level patterns", 20, len(rxm))
 	c.Floor("dispatch rows", 20, len(d.Rows))
+	c.Floor("functions between the ingester callback and the dispatcher", 2, lineReachesDispatcher(c))
+	spacingRule(c) // field values reach the patterns as written (internal spacing preserved by the ingester)
 	rowOf := map[*ssa.Function][]Row{}
 	for _, r := range d.Rows {
 		rowOf[r.Fn] = append(rowOf[r.Fn], r)
@@ -414,4 +416,92 @@ func matchIsFirst(mc *ssa.Call) bool {
 		}
 	})
 	return first
+}
+
+// lineReachesDispatcher: every record the ingester's callback receives is
+// handed to the dispatcher. Walks the call chain upwards from the dispatcher
+// (dispatcher <- ProcessSshdLogEntry <- syslog Process): in each function of
+// the chain no path from the entry to a return that may carry a nil error
+// avoids the call of the next function down. A line skipped on such a path
+// produces no event although it is a supported message.
+func lineReachesDispatcher(c *Check) int {
+	p := c.P
+	d := FindDispatch(p)
+	if !c.Anchor("sshd dispatcher", d != nil) {
+		return 0
+	}
+	n := 0
+	target := d.Fn
+	for level := 0; level < 4 && target != nil; level++ {
+		callers := map[*ssa.Function][]ssa.Instruction{}
+		for _, fn := range p.AllRepoFuncs() {
+			if !p.InDaemon(fn) || fn.Blocks == nil || fn == target {
+				continue
+			}
+			for _, ci := range callsIn(fn) {
+				hit := false
+				if sc := staticCallee(ci.Common()); sc != nil {
+					hit = sc == target
+				} else {
+					for _, dc := range p.dynCallees(ci) {
+						if dc == target || unwrapBound(dc) == target {
+							hit = true
+						}
+					}
+				}
+				if hit {
+					callers[fn] = append(callers[fn], ci)
+				}
+			}
+		}
+		var next *ssa.Function
+		var fns []*ssa.Function
+		for fn := range callers {
+			fns = append(fns, fn)
+		}
+		sort.Slice(fns, func(i, j int) bool { return fns[i].String() < fns[j].String() })
+		for _, fn := range fns {
+			pk := FuncPkgPath(fn)
+			if fn.Synthetic != "" || strings.HasSuffix(pk, "/ingesters/namedpipe") || strings.HasSuffix(pk, "/cmd") {
+				continue // the framing loop (C12) and the wiring (C08) are decided elsewhere
+			}
+			sites := callers[fn]
+			isSite := func(in ssa.Instruction) bool {
+				for _, s := range sites {
+					if s == in {
+						return true
+					}
+				}
+				return false
+			}
+			r := NewResolver(p)
+			n++
+			c.Fn(funcDisplayName(fn))
+			var skip ssa.Instruction
+			for _, blk := range fn.Blocks {
+				if len(blk.Instrs) == 0 || blk == fn.Recover {
+					continue
+				}
+				ret, ok := blk.Instrs[len(blk.Instrs)-1].(*ssa.Return)
+				if !ok {
+					continue
+				}
+				if len(ret.Results) > 0 && isErrorType(ret.Results[len(ret.Results)-1].Type()) && nilKind(r, ret.Results[len(ret.Results)-1], ret) == NonNil {
+					continue // failure exit: the worker stops
+				}
+				if searchAvoiding(fn, nil, func(in ssa.Instruction) bool { return in == ssa.Instruction(ret) }, isSite) != nil {
+					skip = ret
+				}
+			}
+			construct := "every line given to " + fn.Name() + " reaches " + target.Name()
+			if skip == nil {
+				c.OK("line-reaches-dispatcher", construct, p.Pos(fn.Pos()), "no return without error avoids the call")
+			} else {
+				c.Bad("line-reaches-dispatcher", construct, p.InstrPos(skip), "a path returns without error and without handing the line on: a supported message on that path produces no event (and an accepted login is never forwarded)")
+			}
+			next = fn
+		}
+		target = next
+	}
+	return n
 }
